@@ -36,6 +36,11 @@ func absDecDigits(d *sdcpb.Decimal64) string {
 	return "dec:" + r.String()
 }
 
+func absDecDigitsRaw(digits int64, precision uint32) string {
+	r := new(big.Rat).SetFrac(big.NewInt(digits), new(big.Int).Exp(big.NewInt(10), big.NewInt(int64(precision)), nil))
+	return "dec:" + r.String()
+}
+
 // identity module resolution for vsim
 var identityModule = map[string]string{"kind": "vsim", "kind-a": "vsim", "kind-b": "vsim", "kind-x": "vsim-ext"}
 var prefixToModule = map[string]string{"vs": "vsim", "vx": "vsim-ext", "vsim": "vsim", "vsim-ext": "vsim-ext"}
